@@ -569,7 +569,7 @@ def run(ctx):
             check_cql_string_text(ctx, T, tt, s)
         ctx.sample({"strip_frozen": {"in": "map<text,frozen<list<frozen<set<int>>>>>", "out": T.strip_frozen("map<text,frozen<list<frozen<set<int>>>>>")}})
 
-    n = ctx.scale(20000, 1200000)
+    n = ctx.scale(20000, 1000000)
     depth_seen = {}
     for _ in range(n):
         tree = gen_tree(rng, tt, rng.choice([2, 3, 4, 4]))
@@ -580,7 +580,7 @@ def run(ctx):
         check_descriptor(ctx, rng, T, util, tt, tree)
     for d, c in depth_seen.items():
         ctx.count("trees_of_depth_%d" % d, c)
-    m = ctx.scale(20000, 1200000)
+    m = ctx.scale(20000, 1000000)
     for _ in range(m):
         tree = gen_cql_tree(rng, tt, rng.choice([1, 2, 3, 4, 4, 4]), exotic=rng.random() < 0.05, top=True)
         if tree_depth(tree) > 4:
